@@ -18,7 +18,7 @@ RULE = ("every price of the exact domain (ticks 1/8..100 exactly representable x
 EXACT_TICKS = [0.125, 0.25, 0.5, 1.0, 2.0, 3.0, 5.0, 10.0, 100.0, 1, 2, 10]
 DEC_TICKS = [0.1, 0.01, 0.001, 0.00001]
 WIT = ["on_grid_unchanged", "buy_rounded_down", "sell_rounded_up", "adjacent_float_below_grid", "adjacent_float_above_grid",
-       "decimal_tick_case", "market_order_untouched", "large_grid_index", "same_price_both_sides_one_market", "long_lived_market_submissions"]
+       "decimal_tick_case", "market_order_untouched", "large_grid_index", "same_price_both_sides_one_market", "long_lived_market_submissions", "tick_size_reassigned_after_setup"]
 
 
 def neighbourhood(tick, ks):
@@ -144,6 +144,11 @@ def shared_cases(tier):
     for tick, exact in [(t, True) for t in EXACT_TICKS] + [(t, False) for t in DEC_TICKS]:
         for direction in ("ascending", "descending", "sides_swapped"):
             yield (tick, exact, direction)
+        # the market is set up with another tick size; its public tick_size attribute is then assigned the new one
+        # (a tick-size reform by an event, a subclass computing its tick after setup) before the domain is submitted
+        for old in (1.0, 0.25, 10.0):
+            if old != tick:
+                yield (tick, exact, "tick_size_changed_from_%r" % old)
 
 
 def shared_fn(case, wit):
@@ -155,9 +160,20 @@ def shared_fn(case, wit):
     if direction == "descending":
         ps = ps[::-1]
     m = Market(0, None, None, "m")
-    m.setup({"tickSize": tick, "marketPrice": 100.0})
-    m._update_time(100.0)
-    m._is_running = False
+    if direction.startswith("tick_size_changed_from_"):
+        old = float(direction[len("tick_size_changed_from_"):])
+        m.setup({"tickSize": old, "marketPrice": 100.0})
+        m._update_time(100.0)
+        m._is_running = False
+        for p in (old * 3, old * 3 + old / 2):
+            m._add_order(Order(0, 0, True, LIMIT_ORDER, 1, price=p))
+            m._add_order(Order(0, 0, False, LIMIT_ORDER, 1, price=p + 50 * old))
+        m.tick_size = tick
+        wit.inc("tick_size_reassigned_after_setup")
+    else:
+        m.setup({"tickSize": tick, "marketPrice": 100.0})
+        m._update_time(100.0)
+        m._is_running = False
     for i, p in enumerate(ps):
         for is_buy in ((True, False) if direction != "sides_swapped" else (False, True)):
             o = Order(0, 0, is_buy, LIMIT_ORDER, 1, price=p)
@@ -199,6 +215,15 @@ def replay(payload):
         c = payload["case"]
         try:
             seq_fn((c[0], c[1], c[2], tuple(c[3])), common.Counter())
+        except Violation as v:
+            print("  ==> VIOLATION %s: %s" % (v.monitor, v.msg))
+            print("VIOLATION property=C19 replay=(this file)")
+            return 1
+        print("replay: no violation on this tree")
+        return 0
+    if payload.get("grid") == "one_long_lived_market":
+        try:
+            shared_fn(tuple(payload["case"]), common.Counter())
         except Violation as v:
             print("  ==> VIOLATION %s: %s" % (v.monitor, v.msg))
             print("VIOLATION property=C19 replay=(this file)")
